@@ -568,8 +568,15 @@ pub fn inject_defect(rng: &mut Rng, cfg: &Cfg, e: &mut ProgramEntry, which: usiz
             if c.is_empty() {
                 return false;
             }
-            let (i, n, dims) = rng.pick(&c).clone();
-            // same name in the same dimension set; placed after the original so split config precedes it
+            let (i, n, mut dims) = rng.pick(&c).clone();
+            // same name in the same dimension set (in half of the cases with the pairs listed in
+            // another order: a set is a set); placed after the original so split config precedes it
+            if dims.len() >= 2 && rng.bool() {
+                dims.reverse();
+                if dims.len() >= 3 && rng.bool() {
+                    dims.swap(0, 1);
+                }
+            }
             let at = i + 1 + rng.usize_below(e.ops.len() - i);
             e.ops.insert(at, POp::Value(n, some_metric(rng, dims)));
         }
